@@ -206,6 +206,13 @@ Fixpoint fields_go (cur : bytes) (acc : list bytes) (l : bytes) : list bytes :=
   end.
 Definition fields (l : bytes) : list bytes := fields_go [] [] l.
 
+(* keys.go:153 if keyFields[0][0] == '@' { marker = ...; keyFields = keyFields[1:] }  ("@cert-authority", "@revoked") *)
+Definition strip_marker (fs : list bytes) : list bytes :=
+  match fs with
+  | (x :: _) :: t => if x =? 64 then t else fs
+  | _ => fs
+  end.
+
 Definition keyinfo := (bytes * attrs)%type.     (* pub.Type(), the attributes of the key itself *)
 
 Section SshLine.
@@ -276,7 +283,7 @@ Section SshLine.
             let fs := fields l1 in
             if Nat.ltb (length fs) 3 || Nat.ltb 5 (length fs) then Some (Err "ssh: invalid entry in known_hosts data")
             else
-              let fs' := match fs with (64 :: _) :: t => t | _ => fs end in      (* "@cert-authority", "@revoked" *)
+              let fs' := strip_marker fs in
               match parse_key_field (join [32] (drop 2 fs')) with
               | Ok (k, c) => Some (Ok (hosts_attr (hd [] fs') :: key_attrs k c))
               | Err e => Some (Err e)
